@@ -1,6 +1,6 @@
 (** C13 — a learned route's metric equals its hop count. *)
 From Coq Require Import List NArith.
-From MM Require Import Model.Flood Proofs.FloodBase Proofs.FloodMetric Generated.C13.
+From MM Require Import Model.Flood Model.FloodPreFix Proofs.FloodPreFixProofs Proofs.FloodBase Proofs.FloodMetric Generated.C13.
 Import ListNotations.
 Local Open Scope N_scope.
 
@@ -47,6 +47,14 @@ Theorem C13_nearer_exit_preferred : forall cf k ops n ns id m,
     forall e', In e' (ns_entries ns) -> e_kind e' = KCidr -> e_id e' = id -> lenN (e_path e) <= lenN (e_path e').
 Proof. exact nearer_exit_preferred. Qed.
 Print Assumptions C13_nearer_exit_preferred.
+
+(** The code BEFORE commit a182c23 (Model/FloodPreFix.v) violated the property: on a chain 0-1-2-3 agent 0's CIDR was recorded with metric 1 at 1, 2 and 3 hops. *)
+Theorem C13_refuted_pre_fix :
+  exists ops, map (fun n => map (fun e => (e_metric e, e_path e))
+                               (filter (fun e => kind_eqb (e_kind e) KCidr) (entries_pre [] 4 ops n))) [1; 2; 3]
+              = [[(1, [0])]; [(1, [1; 0])]; [(1, [2; 1; 0])]].
+Proof. exact C13_pre_fix_metric_ignores_distance. Qed.
+Print Assumptions C13_refuted_pre_fix.
 
 (** Non-vacuity: a chain 0-1-2-3, agent 0 advertises a CIDR, a domain and a
     forward route; after flooding, agent 3 holds them (and agent 0's
